@@ -139,6 +139,12 @@ def run(ctx):
         prod = pd.DataFrame({"Days": np.arange(nd), "Gas": gas, "Pressure": pres})
         # row labels as the caller's table carries them: 0..n-1, or repeated (two exports joined without renumbering, so that an idle
         # day of one shares its label with a producing day of the other): the rows decide what is drawn, not their labels
+        if k % 2 == 1:
+            # the filtered figure does not read the Days column (its time axis is the count of retained rows): a producing day whose
+            # date is missing from the record is still drawn
+            good_ = np.nonzero((gas > 0) & ~np.isnan(pres))[0]
+            prod["Days"] = prod["Days"].astype(float)
+            prod.loc[good_[len(good_) // 2], "Days"] = np.nan
         labels = ["repeated (two exports joined)", "0..n-1", "reversed"][k % 3]
         if labels.startswith("repeated"):
             prod.index = np.arange(nd) % (nd // 2 + 1)
@@ -164,7 +170,7 @@ def run(ctx):
               and cl(l1[1][1], np.cumsum(gas[keep]) / M) and cl(l2[0][1], pres[keep]) and cl(l2[0][0], tt))
         if not ok:
             bad("production-comparison figure does not carry simulated recovery, cumulative production over M and frac-face pressure against time over tau",
-                dict(days=nd, tau=tau, M=M, p_initial=p0, row_labels=labels, gas=[float(x) for x in gas], pressure=[None if np.isnan(x) else float(x) for x in pres]),
+                dict(days=nd, tau=tau, M=M, p_initial=p0, row_labels=labels, a_producing_day_has_no_date=bool(k % 2 == 1), gas=[float(x) for x in gas], pressure=[None if np.isnan(x) else float(x) for x in pres]),
                 dict(points_drawn=[len(l_[0]) for l_ in l1 + l2], points_expected=int(keep.sum())))
     # ---------------- the same figure WITHOUT filtering, on records whose Days column is not 0, 1, 2, ... (starting at day 1,
     # every other day, monthly): the time axis is Days / tau and the simulation runs on it
